@@ -868,11 +868,17 @@ func (f *Frame) seqOfSlice(sl Term, elem types.Type, st *State) Term {
 	if f.vc.subCache == nil {
 		f.vc.subCache = map[string]Term{}
 	}
-	r := f.vc.freshConst("seqof", srt)
+	// a function of the backing array's content, the offset and the length (not a fresh
+	// constant per occurrence): the same slice reached along two paths - a phi of
+	// slices, a field read twice - then yields the same sequence by congruence, which
+	// uninterpreted sequences have no other way of being equal
+	fn := "seqof." + sortTag(es)
+	arr := fmt.Sprintf("(Array Int %s)", es)
+	f.vc.declareFunOnce(fn, []string{arr, sInt, sInt}, srt)
+	f.assumeOnce(T(sBool, "(forall ((c!q %[3]s) (o!q Int) (n!q Int)) (! (=> (<= 0 n!q) (= (len.%[1]s (%[2]s c!q o!q n!q)) n!q)) :pattern ((%[2]s c!q o!q n!q))))", srt, fn, arr))
+	f.assumeOnce(T(sBool, "(forall ((c!q %[3]s) (o!q Int) (n!q Int) (k!q Int)) (! (=> (and (<= 0 k!q) (< k!q n!q)) (= (at.%[1]s (%[2]s c!q o!q n!q) k!q) (select c!q (sl.ix o!q k!q)))) :pattern ((at.%[1]s (%[2]s c!q o!q n!q) k!q))))", srt, fn, arr))
+	r := T(srt, "(%s (select %s (Sl.base %s)) (Sl.off %s) (Sl.len %s))", fn, comp.S, sl.S, sl.S, sl.S)
 	f.vc.subCache[ck] = r
-	f.vc.assumeOwned(r, T(sBool, "(= (len.%s %s) (Sl.len %s))", srt, r.S, sl.S))
-	f.vc.assumeOwned(r, T(sBool, "(forall ((k!q Int)) (! (=> (and (<= 0 k!q) (< k!q (Sl.len %[3]s))) (= (at.%[1]s %[2]s k!q) (select (select %[4]s (Sl.base %[3]s)) (sl.ix (Sl.off %[3]s) k!q)))) :pattern ((at.%[1]s %[2]s k!q))))",
-		srt, r.S, sl.S, comp.S))
 	return r
 }
 
